@@ -94,6 +94,32 @@ def check(ck):
         gcl = cfg_of(fcl)
         base_calls = [n for n in gcl.live_nodes() for c in node_calls(n) if call_name(c) == "close" and dump(c.func.value) != "self"
                       and ("Transport" in dump(c.func.value) or "super" in dump(c.func.value))]
+        if not base_calls:
+            # a re-implementation (no call of the inherited close at all): the cached connection object must be closed whenever there is
+            # one - under tests of the cache entry itself (None / empty), never of the state of the connection (its socket, a flag)
+            dcl = dominators(gcl)
+            own_close = []
+            for n_ in gcl.live_nodes():
+                for c_ in node_calls(n_):
+                    if isinstance(c_.func, ast.Attribute) and c_.func.attr == "close" and dump(c_.func.value) != "self" and \
+                            prov.contains(prov.origin(gcl, n_, c_.func.value), lambda x: x == ("attr", ("param", "self"), "_connection")):
+                        own_close.append((n_, c_))
+            okk = bool(own_close)
+            why = "closes nothing taken from self._connection"
+            for (n_, c_) in own_close:
+                for d_ in dcl[n_.id]:
+                    b_ = gcl.nodes[d_]
+                    if b_.kind != "branch":
+                        continue
+                    if any(isinstance(x, ast.Attribute) and not (isinstance(x.value, ast.Name) and x.value.id == "self" and x.attr == "_connection")
+                           for x in ast.walk(b_.test)) or any(isinstance(x, ast.Call) for x in ast.walk(b_.test)):
+                        okk = False
+                        why = "closes the cached connection only under `%s`" % dump(b_.test)[:60]
+            ck.require(okk, "C19.1", "%s: the override of close() always reaches the base close" % q.fn(fcl), "the cached connection is closed whenever there is one",
+                       "%s.close() re-implements the inherited close() and %s: after a fault outside that condition (a refused connection, when no "
+                       "socket exists yet) single_request's handler closes nothing, the cached connection keeps its broken state and every later "
+                       "call fails" % (ci.name, why), q.loc(fcl, fcl.node))
+            continue
         pdc = postdominators(gcl, [gcl.return_exit.id], NORMAL)
         okk = any(n.id in pdc[gcl.entry.id] for n in base_calls)
         ck.require(okk, "C19.1", "%s: the override of close() always reaches the base close" % q.fn(fcl), "base close post-dominates the entry",
@@ -133,13 +159,25 @@ def check(ck):
         ck.require(okk, "C19.2", "%s: returns parse_response(<own response>)" % q.fn(fs), "own response parsed",
                    "single_request returns %s" % prov.show(t)[:80], q.loc(fs, rn))
     rz = [n for n in g.live_nodes() if n.kind == "raise" and n.ast.exc is not None and "TransportError" in dump(n.ast.exc)]
+    rz_call = dict((n.id, (n, n.ast.exc)) for n in rz if isinstance(n.ast.exc, ast.Call))
+    # `error = TransportError(...)` built first (while the response is at hand) and raised after the clean-up: `raise error`
+    for n in g.live_nodes():
+        if n.kind == "raise" and isinstance(n.ast.exc, ast.Name) and n not in rz:
+            defs_ = prov.rd_of(g).get(n.id, {}).get(n.ast.exc.id) or ()
+            dn_ = [g.nodes[d_] for d_ in defs_]
+            if dn_ and all(x.kind == "stmt" and isinstance(x.ast, ast.Assign) and isinstance(x.ast.value, ast.Call) and
+                           "TransportError" in dump(x.ast.value.func) for x in dn_) and len(dn_) == 1:
+                rz.append(n)
+                rz_call[n.id] = (dn_[0], dn_[0].ast.value)
+    rz = [n for n in rz if n.id in rz_call]
     ck.require(len(rz) == 1, "C19.2", "%s: raise TransportError" % q.fn(fs), "present", "no TransportError is raised for a non-200 reply", q.loc(fs, fs.node))
     for rn in rz:
-        a = rn.ast.exc.args
+        en_, call_ = rz_call[rn.id]
+        a = call_.args
         # the URL: an expression built from the host and the handler this call was given (further arguments are the exception's own)
-        turl = prov.origin(g, rn, a[0]) if a else None
+        turl = prov.origin(g, en_, a[0]) if a else None
         has_url = turl is not None and prov.contains(turl, lambda x: x == ("param", "host")) and prov.contains(turl, lambda x: x == ("param", "handler"))
-        okk = len(a) >= 4 and has_url and own_status(rn, a[1])
+        okk = len(a) >= 4 and has_url and own_status(en_, a[1])
         ck.require(okk, "C19.2", "%s: TransportError(host + handler, response.status, ...)" % q.fn(fs), "URL and status",
                    "TransportError is raised with `%s`" % [dump(x) for x in a], q.loc(fs, rn))
         # every normal path on the false edge of the status test ends in this raise
@@ -177,6 +215,8 @@ def check(ck):
                         if isinstance(cc.func, ast.Attribute) and cc.func.attr in ("getheader", "getheaders", "read", "close", "isclosed") and \
                                 isinstance(cc.func.value, ast.Name) and cc.func.value.id in hf.params:
                             continue
+                        if dump(cc.func) == "self.close" and not cc.args and not cc.keywords:
+                            continue        # (dropping the connection: C19.1's own remedy)
                         return False
                     # an accessor that can fail (read) must sit in a catch-all of the helper: its failure must not replace the TransportError
                     for cc in [x for x in ast.walk(hf.node) if isinstance(x, ast.Call) and isinstance(x.func, ast.Attribute) and x.func.attr == "read"]:
@@ -187,7 +227,8 @@ def check(ck):
                             return False
                     return True
                 closes_self = dump(c.func) == "self.close" and not c.args      # (dropping the connection of a failed exchange: C19.1's own remedy)
-                ck.require(own or is_logging_call(c) or closes_self or _harmless_helper(c), "C19.2", "%s: `%s` on the non-200 path" % (q.fn(fs), dump(c)[:40]), "accessor of the own response",
+                builds_te = any(c is rz_call[r_.id][1] for r_ in rz)            # (the TransportError itself, prepared before the clean-up)
+                ck.require(own or is_logging_call(c) or closes_self or builds_te or _harmless_helper(c), "C19.2", "%s: `%s` on the non-200 path" % (q.fn(fs), dump(c)[:40]), "accessor of the own response",
                            "`%s` runs between the status test and `raise TransportError`: if it raises (a body that does not decode, an "
                            "unexpected type), the caller gets that exception instead of the TransportError carrying URL and status"
                            % dump(c)[:60], q.loc(fs, n_))
@@ -204,6 +245,17 @@ def check(ck):
                     sclose.add(nid)
                     continue
                 hf_ = prog.resolve_call(fs, c) if not isinstance(c.func, ast.Attribute) or dump(c.func).startswith("self.") else None
+                if hasattr(hf_, "node"):
+                    # a helper that drops the connection whatever happens (self.close() at its top level or in a `finally` at its top level)
+                    def _uncond_close(body_):
+                        for st_ in body_:
+                            if isinstance(st_, ast.Expr) and isinstance(st_.value, ast.Call) and dump(st_.value.func) == "self.close" and not st_.value.args:
+                                return True
+                            if isinstance(st_, ast.Try) and _uncond_close(st_.finalbody):
+                                return True
+                        return False
+                    if _uncond_close(hf_.node.body):
+                        sclose.add(nid)
                 in_helper = hasattr(hf_, "node") and any(isinstance(x, ast.Call) and isinstance(x.func, ast.Attribute) and x.func.attr == "close" and
                                                          isinstance(x.func.value, ast.Name) and x.func.value.id in hf_.params for x in ast.walk(hf_.node))
                 direct = isinstance(c.func, ast.Attribute) and c.func.attr == "close" and \
@@ -219,11 +271,12 @@ def check(ck):
                        "next call, and every later call returns the result of the one before" % dump(c)[:50], q.loc(fs, n_))
     for rn in rz:
         for i_, want_ in ((2, "reason"), (3, "msg")):
-            if len(rn.ast.exc.args) > i_:
-                a_ = rn.ast.exc.args[i_]
+            en_, call_ = rz_call[rn.id]
+            if len(call_.args) > i_:
+                a_ = call_.args[i_]
                 okk = all(t_[0] == "attr" and t_[2] == want_ and
                           all(r_[0] == "call" and r_[1][0] == "attr" and r_[1][2] == "getresponse" for r_ in prov.value_alts(t_[1]))
-                          for t_ in prov.value_alts(prov.origin(g, rn, a_)))
+                          for t_ in prov.value_alts(prov.origin(g, en_, a_)))
                 ck.require(okk, "C19.2", "%s: TransportError(..., response.%s)" % (q.fn(fs), want_), "taken from the own response",
                            "TransportError is raised with `%s` instead of the response's own %s" % (dump(a_), want_), q.loc(fs, rn))
 
@@ -260,6 +313,12 @@ def check(ck):
                           ok5 = True
                       elif pol:
                           why = "the Content-Length test has the default `%s`, which is true when the header is absent" % dump(dflt)
+              if (c.args or c.keywords) and any(dump(cc.func) == "self.close" for x in g.live_nodes() for cc in node_calls(x)
+                                               if x.id in reachable_avoiding(g, n.id, set(), lambda l: True)):
+                  # a bounded read followed by self.close(): fine if the connection is dropped whenever something is left - which depends
+                  # on a completeness test over http.client state (isclosed(), length) that the rules do not model
+                  raise AnalysisError("%s reads a bounded part of the error body (`%s`) and closes the connection afterwards under a condition "
+                                      "the rules do not model" % (q.fn(fs), dump(c)))
               ck.require(not c.args and not c.keywords, "C19.5", "%s: `%s` drains the whole body" % (q.fn(fs), dump(c)), "read() without a size",
                          "`%s` reads only a part of the error body: what is left stays on the kept-alive connection and the next call on "
                          "this proxy fails (ResponseNotReady) or reads the remainder as its own reply" % dump(c), q.loc(fs, n))
@@ -378,16 +437,26 @@ def check(ck):
                    "TransportError.%s does not hold the `%s` it was raised with (URL and status are read from these attributes)" % (p_, p_), q.loc(fte, fte.node))
     fmc = prog.func("jsonrpc", "UnixTransport.make_connection")
     gmc = cfg_of(fmc)
+    _stores = [n for n in gmc.live_nodes() if n.kind == "stmt" and isinstance(n.ast, ast.Assign) and any(dump(t_) == "self._connection" for t_ in n.ast.targets)]
+    _dmc = dominators(gmc)
     for (rn, val) in q.return_sources(fmc):
         t = prov.origin(gmc, rn, val) if val is not None else ("const", None)
         okk = t == ("item", ("attr", ("param", "self"), "_connection"), ("const", 1))
+        if not okk and val is not None and len(_stores) == 1 and isinstance(_stores[0].ast.value, ast.Tuple) and \
+                len(_stores[0].ast.value.elts) == 2 and isinstance(_stores[0].ast.value.elts[1], ast.Name) and \
+                rn.kind == "stmt" and isinstance(rn.ast, ast.Assign) and len(rn.ast.targets) == 1 and isinstance(rn.ast.targets[0], ast.Name) and \
+                rn.ast.targets[0].id == _stores[0].ast.value.elts[1].id and \
+                rn.id in (prov.rd_of(gmc).get(_stores[0].id, {}).get(rn.ast.targets[0].id) or ()) and \
+                gmc.return_exit.id not in reachable_avoiding(gmc, rn.id, set([_stores[0].id]), lambda l: l != "exc"):
+            okk = True      # (the returned local is the one stored as the cache entry on the way out: the same object)
         ck.require(okk, "C19.4", "%s: `%s`" % (q.fn(fmc), q.stmt_text(rn)[:50]), "returns self._connection[1]",
                    "make_connection returns %s, not the connection object it caches in self._connection: every exchange over a Unix socket "
                    "(or every one after the first) has no connection to use" % prov.show(t)[:60], q.loc(fmc, rn))
     stores = [n for n in gmc.live_nodes() if n.kind == "stmt" and isinstance(n.ast, ast.Assign) and any(dump(t_) == "self._connection" for t_ in n.ast.targets)]
     okk = len(stores) == 1 and isinstance(stores[0].ast.value, ast.Tuple) and len(stores[0].ast.value.elts) == 2 and \
         all(a_ == ("param", "host") or (a_[0] == "attr" and a_[1] == ("param", "self")) for a_ in prov.value_alts(prov.origin(gmc, stores[0], stores[0].ast.value.elts[0]))) and \
-        isinstance(stores[0].ast.value.elts[1], ast.Call) and dump(stores[0].ast.value.elts[1].func) == "UnixHTTPConnection"
+        all(a_[0] == "call" and a_[1] in (("global", "UnixHTTPConnection"), ("name", "UnixHTTPConnection"))
+            for a_ in prov.value_alts(prov.origin(gmc, stores[0], stores[0].ast.value.elts[1])))
     ck.require(okk, "C19.4", "%s: cache entry" % q.fn(fmc), "self._connection = host, UnixHTTPConnection(path)",
                "the connection cache is not filled with (host key, new Unix connection)", q.loc(fmc, fmc.node))
     ck.floor("C19.4", 8)
